@@ -16,6 +16,7 @@
 #include <stdexcept>
 #include <stdio.h> // snprintf
 #include <string>
+#include <vector>
 #include <type_traits>
 
 #include <jsoncons/config/compiler_support.hpp>
@@ -289,6 +290,33 @@ void dump_buffer(const char *buffer, std::size_t length, char decimal_point, Res
     }
 }
 
+// Formats val with snprintf and passes the text to dump_buffer. snprintf returns the
+// length the complete text needs, which can exceed any fixed stack buffer (e.g. "%f"
+// of 1e300, or a large user precision); a heap buffer of that length is used then.
+template <typename Result>
+bool dump_formatted(const char* format, int precision, double val, char decimal_point, Result& result)
+{
+    char buffer[200];
+    int length = snprintf(buffer, sizeof(buffer), format, precision, val);
+    if (length < 0)
+    {
+        return false;
+    }
+    if (static_cast<std::size_t>(length) < sizeof(buffer))
+    {
+        dump_buffer(buffer, static_cast<std::size_t>(length), decimal_point, result);
+        return true;
+    }
+    std::vector<char> big(static_cast<std::size_t>(length) + 1);
+    int length2 = snprintf(big.data(), big.size(), format, precision, val);
+    if (length2 < 0 || static_cast<std::size_t>(length2) >= big.size())
+    {
+        return false;
+    }
+    dump_buffer(big.data(), static_cast<std::size_t>(length2), decimal_point, result);
+    return true;
+}
+
 template <typename Result>
 bool dtoa_scientific(double val, char decimal_point, Result& result)
 {
@@ -415,6 +443,11 @@ bool dtoa_fixed(double val, char decimal_point, Result& result, std::false_type)
     {
         return false;
     }
+    if (static_cast<std::size_t>(length) >= sizeof(buffer))
+    {
+        // the text does not fit the stack buffer (large magnitude)
+        return dump_formatted("%1.*f", std::numeric_limits<double>::max_digits10, val, decimal_point, result);
+    }
     double x{0};
     auto res = decstr_to_double(buffer, length, x);
     if (res.ec == std::errc::invalid_argument)
@@ -428,6 +461,10 @@ bool dtoa_fixed(double val, char decimal_point, Result& result, std::false_type)
         if (length < 0)
         {
             return false;
+        }
+        if (static_cast<std::size_t>(length) >= sizeof(buffer))
+        {
+            return dump_formatted("%1.*f", precision2, val, decimal_point, result);
         }
     }
     dump_buffer(buffer, length, decimal_point, result);
@@ -505,21 +542,16 @@ public:
     {
         std::size_t count = 0;
 
-        char number_buffer[200];
-        int length = 0;
-
         switch (float_format_)
         {
         case float_chars_format::fixed:
             {
                 if (precision_ > 0)
                 {
-                    length = snprintf(number_buffer, sizeof(number_buffer), "%1.*f", precision_, val);
-                    if (length < 0)
+                    if (!dump_formatted("%1.*f", precision_, val, decimal_point_, result))
                     {
                         JSONCONS_THROW(json_runtime_error<std::invalid_argument>("write_double failed."));
                     }
-                    dump_buffer(number_buffer, length, decimal_point_, result);
                 }
                 else
                 {
@@ -534,12 +566,10 @@ public:
             {
                 if (precision_ > 0)
                 {
-                    length = snprintf(number_buffer, sizeof(number_buffer), "%1.*e", precision_, val);
-                    if (length < 0)
+                    if (!dump_formatted("%1.*e", precision_, val, decimal_point_, result))
                     {
                         JSONCONS_THROW(json_runtime_error<std::invalid_argument>("write_double failed."));
                     }
-                    dump_buffer(number_buffer, length, decimal_point_, result);
                 }
                 else
                 {
@@ -554,12 +584,10 @@ public:
             {
                 if (precision_ > 0)
                 {
-                    length = snprintf(number_buffer, sizeof(number_buffer), "%1.*g", precision_, val);
-                    if (length < 0)
+                    if (!dump_formatted("%1.*g", precision_, val, decimal_point_, result))
                     {
                         JSONCONS_THROW(json_runtime_error<std::invalid_argument>("write_double failed."));
                     }
-                    dump_buffer(number_buffer, length, decimal_point_, result);
                 }
                 else
                 {
